@@ -59,12 +59,13 @@ Inductive cpc :=
 | CProc (perr : bool)   (* inside `for i := range outJobs`; perr = this batch contains a line with out.err *)
 | CRet.                 (* returned; the deferred cancel() has run *)
 
-Record jreader := mkreader { r_left : nat; r_cur : nat; r_pc : rpc; r_lread : nat }.
+Record jreader := mkreader { r_left : nat; r_cur : nat; r_pc : rpc; r_lread : nat; r_err : bool }.
 Record jpool := mkpool { q_tokens : nat; q_jobs : list job; q_busy : list job; q_out : list job; q_done : option bool }.
 Record jcons := mkcons { c_pc : cpc; c_dseen : bool; c_recvl : nat; c_unprod : nat; c_plim : option nat; c_ext : bool }.
 Record jstate := mkjstate { j_r : jreader; j_q : jpool; j_c : jcons }.
 
-(* r_left  lines not yet scanned            r_cur   len(job.lines) of the batch being filled
+(* r_err   the scan loop ended because the file was closed under the reader (Run returned: defer f.Close())
+   r_left  lines not yet scanned            r_cur   len(job.lines) of the batch being filled
    r_lread linesRead                        q_tokens len(outChanAvailableTokens)
    q_jobs  contents of parserWorkReceiveChannel (FIFO)      q_busy jobs held by workers (taken, not yet sent)
    q_out   contents of outChan (FIFO)       q_done  contents of the done channel (cap 1): Some (err != nil)
@@ -73,16 +74,16 @@ Record jstate := mkjstate { j_r : jreader; j_q : jpool; j_c : jcons }.
    c_plim  produce calls left before the failing one        c_ext the caller's ctx is cancelled *)
 
 Definition jinit (p : jparams) : jstate :=
-  mkjstate (mkreader (jp_n p) 0 RScan 0) (mkpool 0 [] [] [] None) (mkcons CSel false 0 0 (jp_plimit p) false).
+  mkjstate (mkreader (jp_n p) 0 RScan 0 false) (mkpool 0 [] [] [] None) (mkcons CSel false 0 0 (jp_plimit p) false).
 
 Definition is_cret (c : cpc) : bool := match c with CRet => true | _ => false end.
 (* localCtx.Done() is closed: the caller's ctx was cancelled or Run returned (defer cancel()) *)
 Definition jcancelled (s : jstate) : bool := c_ext (j_c s) || is_cret (c_pc (j_c s)).
 
 Inductive jlabel :=
-| JScan | JEof | JTok | JRCancel | JEnq | JDone                       (* reader *)
-| JTake | JSend (id : nat) | JDrop (id : nat)                          (* workers; id = first line of the job *)
-| JRecv | JTokRel | JProduce | JProduceErr | JParseErr | JProcEnd | JRecvDone | JCtx   (* consumer *)
+| JScan | JEof | JEofClosed | JTok | JRCancel | JEnq | JDone          (* reader *)
+| JTake (id : nat) | JSend (id : nat) | JDrop (id : nat)               (* workers; id = first line of the job *)
+| JRecv (id : nat) | JTokRel | JProduce | JProduceErr | JParseErr | JProcEnd | JRecvDone | JCtx   (* consumer *)
 | JExt.                                                                (* environment: the caller cancels ctx *)
 
 (* remove the first job with the given start line *)
@@ -116,48 +117,58 @@ Definition jstep (p : jparams) (s : jstate) (l : jlabel) : option jstate :=
       match r_pc r, r_left r with
       | RScan, S k =>
           let cur' := S (r_cur r) in
-          Some (mkjstate (mkreader k cur' (if cur' =? jp_b p then RSelect false else RScan) (r_lread r)) q c)
+          Some (mkjstate (mkreader k cur' (if cur' =? jp_b p then RSelect false else RScan) (r_lread r) (r_err r)) q c)
       | _, _ => None
       end
   | JEof =>
       match r_pc r, r_left r with
-      | RScan, O => Some (mkjstate (mkreader 0 (r_cur r) (if 0 <? r_cur r then RSelect true else RSendDone) (r_lread r)) q c)
+      | RScan, O => Some (mkjstate (mkreader 0 (r_cur r) (if 0 <? r_cur r then RSelect true else RSendDone) (r_lread r) (r_err r)) q c)
+      | _, _ => None
+      end
+  | JEofClosed =>
+      (* Run has returned and its deferred f.Close() has run: the next read of the scanner fails
+         ("file already closed"), the scan loop ends with sc.Err() != nil although lines may be left *)
+      match r_pc r, c_pc c with
+      | RScan, CRet => Some (mkjstate (mkreader (r_left r) (r_cur r) (if 0 <? r_cur r then RSelect true else RSendDone) (r_lread r) true) q c)
       | _, _ => None
       end
   | JTok =>
       match r_pc r with
       | RSelect f => if q_tokens q <? jp_ct p
-                     then Some (mkjstate (mkreader (r_left r) (r_cur r) (REnq f) (r_lread r))
+                     then Some (mkjstate (mkreader (r_left r) (r_cur r) (REnq f) (r_lread r) (r_err r))
                                          (mkpool (S (q_tokens q)) (q_jobs q) (q_busy q) (q_out q) (q_done q)) c)
                      else None
       | _ => None
       end
   | JRCancel =>
       match r_pc r with
-      | RSelect f => if jcancelled s then Some (mkjstate (mkreader (r_left r) (r_cur r) RExit (r_lread r)) q c) else None
+      | RSelect f => if jcancelled s then Some (mkjstate (mkreader (r_left r) (r_cur r) RExit (r_lread r) (r_err r)) q c) else None
       | _ => None
       end
   | JEnq =>
       match r_pc r with
       | REnq f => if length (q_jobs q) <? jp_cj p
-                  then Some (mkjstate (mkreader (r_left r) 0 (if f then RSendDone else RScan) (r_lread r + r_cur r))
+                  then Some (mkjstate (mkreader (r_left r) 0 (if f then RSendDone else RScan) (r_lread r + r_cur r) (r_err r))
                                       (mkpool (q_tokens q) (q_jobs q ++ [(r_lread r, r_cur r)]) (q_busy q) (q_out q) (q_done q)) c)
                   else None
       | _ => None
       end
   | JDone =>
       match r_pc r, q_done q with
-      | RSendDone, None => Some (mkjstate (mkreader (r_left r) (r_cur r) RExit (r_lread r))
-                                          (mkpool (q_tokens q) (q_jobs q) (q_busy q) (q_out q) (Some (jp_rerr p))) c)
+      | RSendDone, None => Some (mkjstate (mkreader (r_left r) (r_cur r) RExit (r_lread r) (r_err r))
+                                          (mkpool (q_tokens q) (q_jobs q) (q_busy q) (q_out q) (Some (jp_rerr p || r_err r))) c)
       | _, _ => None
       end
   (* ---- workers ---- *)
-  | JTake =>
-      match q_jobs q with
-      | j :: js => if length (q_busy q) <? jp_w p
-                   then Some (mkjstate r (mkpool (q_tokens q) js (j :: q_busy q) (q_out q) (q_done q)) c)
-                   else None
-      | [] => None
+  | JTake id =>
+      (* Go channels are FIFO; the LTS lets a worker take ANY queued job (and the consumer receive any
+         queued result): a superset of the real schedules, so the theorems cover the FIFO ones, and a log
+         in which two workers record their takes in the opposite order of the takes themselves is accepted *)
+      match take_job id (q_jobs q) with
+      | Some (j, js) => if length (q_busy q) <? jp_w p
+                        then Some (mkjstate r (mkpool (q_tokens q) js (j :: q_busy q) (q_out q) (q_done q)) c)
+                        else None
+      | None => None
       end
   | JSend id =>
       match take_job id (q_busy q) with
@@ -174,10 +185,10 @@ Definition jstep (p : jparams) (s : jstate) (l : jlabel) : option jstate :=
       | None => None
       end
   (* ---- consumer ---- *)
-  | JRecv =>
-      match c_pc c, q_out q with
-      | CSel, j :: o => Some (mkjstate r (mkpool (q_tokens q) (q_jobs q) (q_busy q) o (q_done q))
-                                       (mkcons (CTok j) (c_dseen c) (c_recvl c) (c_unprod c) (c_plim c) (c_ext c)))
+  | JRecv id =>
+      match c_pc c, take_job id (q_out q) with
+      | CSel, Some (j, o) => Some (mkjstate r (mkpool (q_tokens q) (q_jobs q) (q_busy q) o (q_done q))
+                                            (mkcons (CTok j) (c_dseen c) (c_recvl c) (c_unprod c) (c_plim c) (c_ext c)))
       | _, _ => None
       end
   | JTokRel =>
@@ -239,15 +250,16 @@ Definition jdefined (p : jparams) (s : jstate) (l : jlabel) : bool :=
   match jstep p s l with Some _ => true | None => false end.
 
 Definition jcandidates (s : jstate) : list jlabel :=
-  [JScan; JEof; JTok; JRCancel; JEnq; JDone; JTake; JRecv; JTokRel; JProduce; JProduceErr; JParseErr; JProcEnd; JRecvDone; JCtx; JExt]
-  ++ map JSend (map jstart (q_busy (j_q s))) ++ map JDrop (map jstart (q_busy (j_q s))).
+  [JScan; JEof; JEofClosed; JTok; JRCancel; JEnq; JDone; JTokRel; JProduce; JProduceErr; JParseErr; JProcEnd; JRecvDone; JCtx; JExt]
+  ++ map JSend (map jstart (q_busy (j_q s))) ++ map JDrop (map jstart (q_busy (j_q s)))
+  ++ map JTake (map jstart (q_jobs (j_q s))) ++ map JRecv (map jstart (q_out (j_q s))).
 
 Definition jenabled (p : jparams) (s : jstate) : list jlabel := filter (jdefined p s) (jcandidates s).
 
 (* who moves *)
 Definition is_consumer_label (l : jlabel) : bool :=
-  match l with JRecv | JTokRel | JProduce | JProduceErr | JParseErr | JProcEnd | JRecvDone | JCtx => true | _ => false end.
-Definition is_worker_label (l : jlabel) : bool := match l with JTake | JSend _ | JDrop _ => true | _ => false end.
+  match l with JRecv _ | JTokRel | JProduce | JProduceErr | JParseErr | JProcEnd | JRecvDone | JCtx => true | _ => false end.
+Definition is_worker_label (l : jlabel) : bool := match l with JTake _ | JSend _ | JDrop _ => true | _ => false end.
 Definition is_env_label (l : jlabel) : bool := match l with JExt => true | _ => false end.
 
 (* final: Run has returned, the reader goroutine has exited, no job is queued or held by a worker
